@@ -347,6 +347,29 @@ def run_c11(tier, budget, rnd) -> StreamResult:
             res.count(f"gap:{gapname}")
             script.add(f"srch seqs {nlist(unknown)} {'none' if k is None else k}", None, ctx0)
             seq_line = len(script) - 1
+            # the enumeration hands out reveal sets; a caller may edit what it was handed (append / clear) — the next enumeration
+            # and the next search with the same knowledge and k must not see those edits
+            if si % 2 == 0:
+                from incomplete_cooperative.gameplay import possible_action_sequences
+                g_en = ICG(n, BOUNDS[cls])
+                ks_en = [Coalition(c) for c in start]
+                g_en.set_known_values(full.get_values(ks_en), ks_en)
+                try:
+                    handed = list(possible_action_sequences(g_en, max_size=k))
+                    before_en = [[c.id for c in s_] for s_ in handed]
+                    for s_ in handed:
+                        if isinstance(s_, list):
+                            s_.append(Coalition(start[-1]))
+                            if len(s_) > 2:
+                                del s_[0]
+                    again_en = [[c.id for c in s_] for s_ in possible_action_sequences(g_en, max_size=k)]
+                except Exception as e:      # noqa: BLE001
+                    before_en, again_en = None, f"raised {type(e).__name__}"
+                res.count("search:enumeration-after-caller-edits")
+                if again_en != before_en:
+                    res.violation("a second enumeration of the reveal sets (same knowledge, same k) differs from the first after the "
+                                  "caller edited the lists it had been handed", dict(ctx0, first=before_en, second=again_en),
+                                  key="search:enumeration-aliasing")
             ref = None
             for procs in (procs_list if (si < 2 and rd == 0) or not quick else [1, 2, 5]):
                 if not budget.ok():
@@ -435,6 +458,28 @@ def run_c11(tier, budget, rnd) -> StreamResult:
                         res.violation("meta-game value ≠ gap of the game knowing exactly minimal ∪ set",
                                       dict(ctx0, meta_coalition=m, inner=inner, reported=v, expected=expect[frozenset(inner)]),
                                       key="meta:value")
+                # the meta-game holds the live full game: after the full game is edited in place the SAME meta-game object answers
+                # for the edited game (meta-coalitions asked before the edit included)
+                if ms:
+                    table2 = list(table)
+                    table2[N - 1] = table[N - 1] + 1
+                    full.set_value(float(table2[N - 1]), Coalition(N - 1))
+                    for m in ms[:4]:
+                        inner = [players[i] for i in range(len(players)) if m >> i & 1]
+                        if len(inner) > kk:
+                            continue
+                        try:
+                            v2 = float(mg.get_value(Coalition(m)))
+                        except Exception as e:      # noqa: BLE001
+                            v2 = f"raised {type(e).__name__}"
+                        want2 = fresh.gap(table2, set(minimal) | set(inner))
+                        res.count("meta:after-edit-of-the-full-game")
+                        if v2 != want2:
+                            res.violation("meta-game value after the underlying full game was edited in place ≠ gap of the edited game "
+                                          "knowing exactly minimal ∪ set", dict(ctx0, meta_coalition=m, inner=inner, reported=v2,
+                                                                               expected=want2, edited_values=table2), key="meta:stale")
+                            break
+                    full.set_value(float(table[N - 1]), Coalition(N - 1))
                 # malformed: a meta-coalition outside the meta-game
                 try:
                     mg.get_value(Coalition(2 ** len(players)))
@@ -1252,6 +1297,63 @@ def run_c13(tier, budget, rnd) -> StreamResult:
                     break
                 if len([v for v in ms.values() if v - min(ms.values()) < 1e-6]) >= 2:
                     res.count("ugreedy:step-with-epsilon-ties")
+
+    # ---- expected greedy asked from a position the environment was stepped to (oracle on the real code only): the search
+    # starts from what the incomplete game knows NOW — row 0 is the gap of the current knowledge, every extension minimises the
+    # mean gap given everything known so far (a candidate that is already known changes nothing and may tie)
+    scases = [(4, 2, 2), (3, 2, 2), (4, 3, 1), (4, 2, 3)] if quick else [(4, 2, 2), (3, 2, 2), (4, 3, 1), (4, 2, 3), (5, 2, 2)] * 4
+    for si_, (n, steps, reps) in enumerate(scases):
+        if not budget.ok():
+            break
+        N = 2 ** n
+        minimal = G.minimal_ids(n)
+        explorable = [c for c in range(N) if c not in minimal]
+        cls, gapname = combos[si_ % len(combos)]
+        procs = [1, 2][si_ % 2]
+        pool_games = [g for g in hidden_games(n, rnd, tier) if g[2]]
+        tables = [pool_games[i][1] for i in rnd.sample(range(len(pool_games)), min(len(pool_games), reps + 2))]
+        while len(tables) < reps + 2:
+            tables.append(tables[-1])
+        sampled = tables[2:2 + reps]
+        extra = sorted(rnd.sample(explorable, rnd.choice([1, 2])))
+        start = sorted(set(minimal) | set(extra))
+        fresh = Fresh(n, cls, gapname)
+        ctx = {"n": n, "max_steps": steps, "repetitions": reps, "processes": procs, "computer": cls, "gap": gapname,
+               "sampled_games": sampled, "stepped_before_search": extra}
+        env = ICG_Gym(ICG(n, BOUNDS[cls]), ListGen(n, tables), minimal_game_coalitions(n), fresh.gapf, done_after_n_actions=steps + 2)
+        for c_ in extra:
+            env.step([x.id for x in env.explorable_coalitions].index(c_))
+        try:
+            with warnings.catch_warnings():
+                warnings.simplefilter("ignore")
+                rows, acts = get_greedy_rewards(env, steps, reps, fresh.gapf, procs)
+            rows = [[float(x) for x in r] for r in rows]
+            acts = [int(a) for a in acts]
+        except Exception as e:      # noqa: BLE001
+            res.violation(f"get_greedy_rewards raised {type(e).__name__} when asked from a stepped position", ctx, key="greedy:stepped:raised")
+            continue
+        res.evaluations += 1
+        res.count("greedy:from-stepped-position")
+
+        def scol(s_):
+            return [fresh.gap(t, set(start) | set(s_)) for t in sampled]
+        c2 = dict(ctx, actions=acts, rows=rows)
+        if len(acts) != steps or len(set(acts)) != len(acts) or not set(acts) <= set(explorable):
+            res.violation("expected-greedy from a stepped position: wrong length / repeated coalition / not explorable", c2,
+                          key="greedy:stepped:sequence")
+            continue
+        bad_row = next((i for i in range(steps + 1) if rows[i] != scol(acts[:i])), None)
+        if bad_row is not None:
+            res.violation("expected-greedy from a stepped position: row i ≠ gaps of (what the environment knows + the first i chosen "
+                          "coalitions) on the sampled games", dict(c2, step=bad_row, expected=scol(acts[:bad_row])), key="greedy:stepped:row")
+            continue
+        for i in range(steps):
+            rem = [c for c in explorable if c not in acts[:i]]
+            ms = {c: float(np.mean(np.array(scol(acts[:i] + [c])))) for c in rem}
+            if ms[acts[i]] != min(ms.values()):
+                res.violation("expected-greedy from a stepped position: the extension does not minimise the mean gap", dict(c2, step=i, candidate_means=ms),
+                              key="greedy:stepped:argmin")
+                break
 
     for b in script.diff():
         res.disagree("expected-greedy: model ≠ implementation", {k: b[k] for k in ("line", "impl", "model", "ctx")})
